@@ -7,7 +7,7 @@ FORMATS = gen.FORMATS
 SUBSETS = [list(c) for r in range(1, 7) for c in itertools.combinations(FORMATS, r)]  # 63
 
 
-def seq_scenario(seq, mode="folder", nested=False, alter=None, restore=None, seed=0, twin=False):
+def seq_scenario(seq, mode="folder", nested=False, alter=None, restore=None, seed=0, twin=False, casetwin=None):
     """seq: list of format lists, one per generation.  alter = index of the generation before which b.txt is altered,
     restore = index before which it is restored."""
     # s_proxy is a sibling whose name starts with the name of the (possibly nested) history folder s
@@ -25,15 +25,22 @@ def seq_scenario(seq, mode="folder", nested=False, alter=None, restore=None, see
                 ops.append({"op": "write", "path": "a.txt", "data": "ALTERED A"})
         if restore is not None and i == restore:
             ops.append({"op": "write", "path": "s/b.txt", "data": "content B"})
+        if casetwin is not None and i == casetwin:
+            # NEW files whose paths differ only in case from files recorded earlier: they are other files, their first
+            # record is 'original' and is never judged against the digests of the namesake
+            ops.append({"op": "write", "path": "s/B.txt", "data": "another file, other case"})
+            ops.append({"op": "write", "path": "A.TXT", "data": "another file in the root, other case"})
         op = {"op": "create", "at": "", "h": list(fmts), "now": "2026-03-01 12:00:%02d" % (i % 60)}
         if mode == "sf":
             op["sf"] = ["a.txt", "s/b.txt", "s_proxy/d.txt"]
-            if (seed + i) % 2 == 1:
+            if casetwin is not None and i >= casetwin:
+                op["sf"] += ["s/B.txt", "A.TXT"]
+            elif (seed + i) % 2 == 1:
                 op["sf_raw"] = ["s/../a.txt", "./s//b.txt", "s_proxy/./d.txt"]
             elif (seed + i) % 3 == 0:
                 op["spell"] = "symlink"
         ops.append(op)
-    return {"root": "root", "tree": tree, "ops": ops, "c04": {"seq": seq, "mode": mode, "nested": nested, "alter": alter, "restore": restore, "twin": twin}}
+    return {"root": "root", "tree": tree, "ops": ops, "c04": {"seq": seq, "mode": mode, "nested": nested, "alter": alter, "restore": restore, "twin": twin, "casetwin": casetwin}}
 
 
 def parse_manifests(asc):
@@ -156,6 +163,9 @@ def run(ctx):
     # the former defect D1 and its neighbours run first
     scs.append(seq_scenario([["xxh64", "md5"], ["xxh64", "sha1"]]))
     scs.append(seq_scenario([["xxh64", "md5"], ["xxh64", "sha1"]], mode="sf"))
+    for md in ("folder", "sf"):
+        for nst in (False, True):
+            scs.append(seq_scenario([["md5"], ["md5", "sha1"], ["xxh64"]], mode=md, nested=nst, casetwin=1))
     if ctx.thorough:
         # all 63 x 63 two-generation sequences (folder mode), plus sampled variants
         for a in SUBSETS:
@@ -173,7 +183,8 @@ def run(ctx):
             alter = rnd.randint(1, n - 1)
             if rnd.random() < 0.5 and alter + 1 < n:
                 restore = rnd.randint(alter + 1, n - 1)
-        scs.append(seq_scenario(seq, mode=rnd.choice(["folder", "folder", "sf"]), nested=rnd.random() < 0.3, alter=alter, restore=restore, seed=rnd.randint(0, 9), twin=alter is not None and rnd.random() < 0.4))
+        scs.append(seq_scenario(seq, mode=rnd.choice(["folder", "folder", "sf"]), nested=rnd.random() < 0.3, alter=alter, restore=restore, seed=rnd.randint(0, 9), twin=alter is not None and rnd.random() < 0.4,
+                                casetwin=rnd.randint(1, n - 1) if rnd.random() < 0.15 else None))
         if _ % 4 == 3:
             gen.unsteady_clock(scs[-1], rnd, p=0.7)
     # ten and more generations: the reference of a file stays the FIRST recorded digest (here recorded in generation 3),
